@@ -298,6 +298,12 @@ Lemma array_except_w_eq l r buf : array_except_w l r buf =
 Proof. unfold array_except_w, array_except_st, array_except_b. stv. Qed.
 
 (* ================================================================ quiet: no Ok, no write *)
+(* M10 (second review) -- what these lemmas are worth.  `quiet` (and `err_leaves` / `framed` below) hold BY THE SHAPE of the
+   `_st` bodies: every step before the single `swrite` is an `spure`, so an outcome other than Ok can only arise before anything
+   is written; quiet_tac checks exactly that shape, nothing about the Rust code.  What ties this shape to the code is not a
+   theorem but the correspondence: on Err the driver prints the MODEL's buffer next to the crate's, for every editor and every
+   generated case (malformed streams included), so a Rust function that pushed bytes before failing would differ from its `_st`
+   model.  build_array / build_object are the functions that do write as they go; their `_st` bodies say so (EditFrame.v). *)
 Definition quiet {A} (m : stm A) : Prop :=
   forall buf, match snd (m buf) with Ok _ => True | _ => fst (m buf) = buf end.
 
